@@ -77,6 +77,9 @@ pub fn catalogue() -> Vec<(&'static str, Vec<MLayer>)> {
 				.collect(),
 		),
 		("layer b, version 1 without extent field", vec![MLayer { extent: None, version: 1, ..layer("b", &["t"], vec![s("v1")], vec![feat(Some(11), &[0, 0], 2, line(&[(1, 1), (2, 2)]))]) }]),
+		// fields outside the numbers the specification defines (its .proto reserves 16.. as extension range): a
+		// protobuf reader skips what it does not know
+		("layer a with vendor extension fields of every wire type", vec![MLayer { extra: mvt::extension_fields(), ..layer("a", &["k"], vec![s("ext")], vec![feat(Some(12), &[0, 0], 1, point(8, 8))]) }]),
 	]
 }
 
@@ -84,29 +87,54 @@ pub fn dfeature_eq(a: &DFeature, b: &DFeature) -> bool {
 	a.id == b.id && a.gtype == b.gtype && a.geom == b.geom && a.props == b.props
 }
 
-/// Reference merge on the independently decoded form.
-pub fn reference_merge(tiles: &[Vec<DLayer>]) -> BTreeMap<String, Vec<DFeature>> {
-	let mut m: BTreeMap<String, Vec<DFeature>> = BTreeMap::new();
-	for t in tiles {
-		for l in t {
-			m.entry(l.name.clone()).or_default().extend(l.features.iter().cloned());
-		}
-	}
-	m
+/// Reference merge on the independently decoded form: per layer name the features in source order, each with the
+/// extent of the layer it comes from.
+pub struct Want {
+	pub feats: BTreeMap<String, Vec<DFeature>>,
+	pub extents: BTreeMap<String, Vec<u32>>,
 }
 
-pub fn compare_layers(got: &[DLayer], want: &BTreeMap<String, Vec<DFeature>>) -> Option<String> {
+pub fn reference_merge(tiles: &[Vec<DLayer>]) -> Want {
+	let mut w = Want { feats: BTreeMap::new(), extents: BTreeMap::new() };
+	for t in tiles {
+		for l in t {
+			w.feats.entry(l.name.clone()).or_default().extend(l.features.iter().cloned());
+			w.extents.entry(l.name.clone()).or_default().extend(l.features.iter().map(|_| l.extent));
+		}
+	}
+	w
+}
+
+pub const EXTENT_CLAUSE: &str = "merged layer: a feature taken from a layer with another extent keeps its unscaled coordinates";
+
+/// `got` (in a layer of extent `eo`) against `want` (from a layer of extent `es`): the same place in the tile
+fn same_place(got: &[u8], eo: u32, want: &[u8], es: u32) -> bool {
+	if eo == es {
+		return got == want;
+	}
+	match mvt::geom_abs(want) {
+		Some(w) if w.iter().any(|(c, x, y)| *c != 7 && (*x != 0 || *y != 0)) => match mvt::geom_abs(got) {
+			Some(g) => g.len() == w.len() && g.iter().zip(w.iter()).all(|(a, b)| a.0 == b.0 && (a.1 * es as i64 - b.1 * eo as i64).abs() <= es as i64 && (a.2 * es as i64 - b.2 * eo as i64).abs() <= es as i64),
+			None => false,
+		},
+		// no vertex away from the origin, or not a command stream (unknown geometry type): nothing to scale
+		_ => got == want,
+	}
+}
+
+pub fn compare_layers(got: &[DLayer], want: &Want) -> Option<String> {
 	let mut names: Vec<&String> = got.iter().map(|l| &l.name).collect();
 	names.sort();
 	if names.windows(2).any(|w| w[0] == w[1]) {
 		return Some(format!("layer name occurs twice in the output: {names:?}"));
 	}
-	let wn: Vec<&String> = want.keys().collect();
+	let wn: Vec<&String> = want.feats.keys().collect();
 	if names != wn {
 		return Some(format!("output layers {names:?}, expected {wn:?}"));
 	}
 	for l in got {
-		let w = &want[&l.name];
+		let w = &want.feats[&l.name];
+		let ext = &want.extents[&l.name];
 		if l.features.iter().any(|f| f.bad_tags) {
 			return Some(format!("layer '{}': a feature references a key/value index outside the tables", l.name));
 		}
@@ -114,8 +142,11 @@ pub fn compare_layers(got: &[DLayer], want: &BTreeMap<String, Vec<DFeature>>) ->
 			return Some(format!("layer '{}': {} features, expected {}", l.name, l.features.len(), w.len()));
 		}
 		for (i, (a, b)) in l.features.iter().zip(w.iter()).enumerate() {
-			if !dfeature_eq(a, b) {
+			if !(a.id == b.id && a.gtype == b.gtype && a.props == b.props) || (ext[i] == l.extent && a.geom != b.geom) {
 				return Some(format!("layer '{}' feature #{i}: got id={:?} type={} geom={:?} props={:?}, expected id={:?} type={} geom={:?} props={:?}", l.name, a.id, a.gtype, a.geom, a.props, b.id, b.gtype, b.geom, b.props));
+			}
+			if !same_place(&a.geom, l.extent, &b.geom, ext[i]) {
+				return Some(format!("EXTENT layer '{}' (extent {}) feature #{i} comes from a layer of extent {}: geometry {:?}, in the source {:?}", l.name, l.extent, ext[i], mvt::geom_abs(&a.geom), mvt::geom_abs(&b.geom)));
 			}
 		}
 	}
@@ -124,7 +155,7 @@ pub fn compare_layers(got: &[DLayer], want: &BTreeMap<String, Vec<DFeature>>) ->
 
 pub fn run(ctx: Arc<Ctx>) {
 	ctx.rule(
-		"catalogue of 14 valid vector tiles built by an independent MVT encoder (disjoint/overlapping layer names, tables in other order / with duplicates / unused entries, ids none/0/2^64-1, all value kinds, extents, empty layer); \
+		"catalogue of 15 valid vector tiles built by an independent MVT encoder (disjoint/overlapping layer names, tables in other order / with duplicates / unused entries, ids none/0/2^64-1, all value kinds, extents, empty layer); \
 		 every ordered pair (quick) and every ordered triple (thorough; quick: triples over the first 6) as source lists; each source holds its tile at one coordinate per presence mask, so every presence pattern occurs; source compressions mixed. \
 		 plus every ordered pair of a bounded-exhaustive family of small layers of one name (5 key tables x 4 value tables x feature lists with every tag list of <= 2 pairs; every 2nd per side in quick, all in thorough) merged through one pipeline whose sources hold layer i resp. j at (10,i,j). plus merges whose key/value tables cross 128 / 16384 (thorough: 2^21) entries only after merging. oracle on independently decoded output: layer set, features in source order with id/type/geometry bytes/property set, declared+delivered uncompressed, lookups = stream. non-trivial = (source list, presence mask) with >= 2 sources present",
 	);
@@ -218,7 +249,9 @@ pub fn run(ctx: Arc<Ctx>) {
 						Ok(layers) => {
 							let want = reference_merge(&present.iter().map(|j| decr[tup[*j]].clone()).collect::<Vec<_>>());
 							if let Some(why) = compare_layers(&layers, &want) {
-								let clause = if why.contains("output layers") || why.contains("twice") {
+								let clause = if why.starts_with("EXTENT") {
+									EXTENT_CLAUSE
+								} else if why.contains("output layers") || why.contains("twice") {
 									"merged tile has other layers than the union of layer names"
 								} else if why.contains("features, expected") {
 									"merged layer has another number of features"
@@ -326,7 +359,9 @@ fn systematic(ctx: &Arc<Ctx>, work: &std::path::Path) {
 				Ok(layers) => {
 					let want = reference_merge(&[decr[i].clone(), decr[j].clone()]);
 					if let Some(why) = compare_layers(&layers, &want) {
-						let clause = if why.contains("output layers") || why.contains("twice") {
+						let clause = if why.starts_with("EXTENT") {
+									EXTENT_CLAUSE
+								} else if why.contains("output layers") || why.contains("twice") {
 							"merged tile has other layers than the union of layer names"
 						} else if why.contains("features, expected") {
 							"merged layer has another number of features"
@@ -445,7 +480,8 @@ fn big_tables(ctx: &Arc<Ctx>, work: &std::path::Path) {
 			Err(e) => ctxr.violation("merged tile is not a (uncompressed) vector tile", &format!("{label} ({path}): {e}"), case.clone()),
 			Ok(layers) => {
 				if let Some(why) = compare_layers(&layers, &want) {
-					ctxr.violation("merged feature differs (id, geometry type, geometry or property set) or is out of source order", &format!("{label} ({path}): {}", why.chars().take(300).collect::<String>()), case.clone());
+					let clause = if why.starts_with("EXTENT") { EXTENT_CLAUSE } else { "merged feature differs (id, geometry type, geometry or property set) or is out of source order" };
+					ctxr.violation(clause, &format!("{label} ({path}): {}", why.chars().take(300).collect::<String>()), case.clone());
 				}
 			}
 		};
